@@ -11,6 +11,11 @@ Allocation IEs of SI4) and the mobile-allocation branch of gsm48_rr_render_ma.  
 sizeof of the SI4 header and of struct gsm48_chan_desc, sizeof(mob_alloc_lv), the RR cause - as compiled by charness/c20_si4.c) +
 correspondence of w_c20_si4 / w_c20_render with the verbatim texts of gsm48_decode_sysinfo4 (+ helpers) and gsm48_rr_render_ma; the
 SI4 message is an exact-size heap block, so a read of one octet behind the message is an ASan report attributed to its input.
+The SI4 / SI1 history (Model/MobAllocHist.v, Proofs/MobAllocHistP.v): gsm48_decode_sysinfo4 stores the message in si4_msg[23] and skips the
+CBCH Mobile Allocation until SI1; gsm48_decode_sysinfo1 sets si1 and re-decodes the stored buffer.  Tie: w_c20_hist against the verbatim
+gsm48_decode_sysinfo1 + gsm48_decode_sysinfo4 on one struct gsm48_sysinfo (mode "hist" of charness/c20_si4.c; decode_freq_list stubbed:
+installs the given cell allocation; the member behind si4_msg poisoned), histories [SI1, A], [A, SI1], [SI1, A, B], [A, SI1, B], [A, B, SI1];
+oracle: after SI1 and an SI4 with a complete IE inside the first 23 octets the list is the specified one, whatever the order (key c20-si4-si1-order).
 The former defect (the length octet of the CBCH Mobile Allocation IE read behind a message that ends with the tag 0x72, fixed in
 /repo d574cef) stays in the oracle under the key c20-si4-ma-length-octet-overread."""
 import json
@@ -30,7 +35,7 @@ TAG_LAST_KEY = "c20-si4-ma-length-octet-overread"
 IE_CD, IE_MA = 0x64, 0x72          # 44.018: CBCH Channel Description / CBCH Mobile Allocation (the theorems state them literally)
 CB0 = [201, 202, 203, 204, 205, 60001]   # chan_nr h tsc maio hsn arfcn before the call (Model.MobAllocSi4.cb0, charness/c20_si4.c)
 # sha256 of the text of gsm48_decode_sysinfo4 / gsm48_rr_render_ma the caller models were written against (a change is a note)
-REVIEWED_SI4_SHA256 = "1c0c634e0fcffad4cae367753e42135bf76f0b759e1c033de4cc8f20bdd481b0"
+REVIEWED_SI4_SHA256 = "3ccfffc833513355012a2e9e72ee4b10a84bb3f25f3944f34e2b2038daa0c008"   # gsm48_decode_sysinfo4 + gsm48_decode_sysinfo1
 REVIEWED_RENDER_SHA256 = "0221a7b1b521f5cc166452e45d6c3b07092cbf98ee9abcf772eb4a1f9fd51b92"
 _SI4 = {}
 # sha256 of the text of gsm48_decode_mobile_alloc the model was written against (a change is a note, never an alarm)
@@ -98,6 +103,9 @@ def extract_si4_sources():
         parts.append(common.c_function_text(src, name))
     si4 = common.c_function_text(src, "gsm48_decode_sysinfo4")
     parts.append(si4)
+    si1 = common.c_function_text(src, "gsm48_decode_sysinfo1")
+    parts.append(si1)
+    si4 = si4 + "\n" + si1        # the reviewed text: both functions
     common.write_if_changed(os.path.join(d, "c20_si4_fn.inc"), "\n\n".join(parts) + "\n")
     with open(os.path.join(REPO, GSM48_RR_H)) as f:
         m = re.search(r"uint8_t\s+mob_alloc_lv\s*\[\s*([^\]]+)\]\s*;", f.read())
@@ -136,19 +144,19 @@ def gen(ctx):
     import hashlib
     si4bin, with_render, si4_text, render_text = build_si4(ctx)
     out = subprocess.run([si4bin, "const"], stdout=subprocess.PIPE, text=True, timeout=30).stdout.split()
-    eio, ie_cd, ie_ma, hdr, cdsz, lvsz, cause = [int(x) for x in out]
+    eio, ie_cd, ie_ma, hdr, cdsz, lvsz, cause, msgsz = [int(x) for x in out]
     txt = common.gen_header("errno.h EIO, gsm_04_08.h GSM48_IE_CBCH_CHAN_DESC / GSM48_IE_CBCH_MOB_AL / sizeof(struct gsm48_system_information_type_4) / "
-                            "sizeof(struct gsm48_chan_desc) / GSM48_RR_CAUSE_NO_CELL_ALLOC_A, gsm48_rr.h sizeof(struct gsm48_rr_cd.mob_alloc_lv) - all as compiled")
+                            "sizeof(struct gsm48_chan_desc) / GSM48_RR_CAUSE_NO_CELL_ALLOC_A, sysinfo.h sizeof(struct gsm48_sysinfo.si4_msg), gsm48_rr.h sizeof(struct gsm48_rr_cd.mob_alloc_lv) - all as compiled")
     txt += ("Definition c_EIO : Z := %d.\nDefinition c_IE_CBCH_CHAN_DESC : Z := %d.\nDefinition c_IE_CBCH_MOB_AL : Z := %d.\n"
             "Definition c_SI4_HDR_SIZE : Z := %d.\nDefinition c_CHAN_DESC_SIZE : Z := %d.\nDefinition c_MOB_ALLOC_LV_SIZE : Z := %d.\n"
-            "Definition c_CAUSE_NO_CELL_ALLOC_A : Z := %d.\n" % (eio, ie_cd, ie_ma, hdr, cdsz, lvsz, cause))
+            "Definition c_CAUSE_NO_CELL_ALLOC_A : Z := %d.\nDefinition c_SI4_MSG_SIZE : Z := %d.\n" % (eio, ie_cd, ie_ma, hdr, cdsz, lvsz, cause, msgsz))
     ctx.gen("MobAllocSi4Const", txt)
     _SI4.clear()
-    _SI4.update(bin=si4bin, render=with_render, hdr=hdr, lv=lvsz,
+    _SI4.update(bin=si4bin, render=with_render, hdr=hdr, lv=lvsz, msgsz=msgsz,
                 si4_sha=hashlib.sha256(si4_text.encode()).hexdigest(),
                 render_sha=hashlib.sha256(render_text.encode()).hexdigest() if render_text else None)
     ctx.extra["gen_constants_callers"] = dict(EIO=eio, IE_CBCH_CHAN_DESC=ie_cd, IE_CBCH_MOB_AL=ie_ma, si4_header=hdr, chan_desc=cdsz,
-                                              mob_alloc_lv=lvsz, cause_no_cell_alloc=cause, render_harness=with_render)
+                                              mob_alloc_lv=lvsz, cause_no_cell_alloc=cause, si4_msg=msgsz, render_harness=with_render)
     bins = build_c(ctx)
     out = subprocess.run([bins, "const"], stdout=subprocess.PIPE, text=True, timeout=30).stdout.split()
     serv, hopp, fsize, hsize, einval, esize, fcap = [int(x) for x in out]
@@ -556,6 +564,129 @@ def render_spec_py(c):
     return ("n0" if not sel else "n64" if len(sel) == 64 else "n+", l), [101 if not sel else 0] + exp[1:]
 
 
+# ------------------------------------------------------------------ histories: SI4 stored, re-decoded at SI1
+
+def mk_hist(pos, hl0, hfill, bg, bfill, A, B, table, kind):
+    order = {0: "SI1 first", 1: "SI4 before SI1", 2: "both SI4 before SI1"}[pos] if kind != "malformed" else "?"
+    return dict(path="hist", pos=pos, hl0=hl0, hfill=hfill, bg=bg, bfill=bfill, A=list(A), B=list(B), table=dict(table), kind=kind, order=order)
+
+
+def line_of_hist(c):
+    a = [c["pos"], c["hl0"], c["hfill"], c["bg"], c["bfill"], len(c["A"])] + c["A"] + [len(c["B"])] + c["B"]
+    for k in sorted(c["table"]):
+        a += [k, c["table"][k]]
+    return " ".join(map(str, a))
+
+
+def hist_of_line(line, kind):
+    a = [int(x) for x in line.split()]
+    nA = a[5]
+    A = a[6:6 + nA]
+    nB = a[6 + nA]
+    B = a[7 + nA:7 + nA + nB]
+    rest = a[7 + nA + nB:]
+    t = {rest[i]: rest[i + 1] for i in range(0, len(rest) - 1, 2)}
+    return mk_hist(a[0], a[1], a[2], a[3], a[4], A, B, t, kind)
+
+
+def show_hist(c):
+    ca = [a for a, m in enumerate(masks_of(c)) if m & 1]
+    ev = ["SI4 A (%d octets)" % len(c["A"])] + (["SI4 B (%d octets)" % len(c["B"])] if c["B"] else [])
+    ev.insert(min(c["pos"], len(ev)), "SI1")
+    return dict(path="hist", kind=c["kind"], events=ev, hl0=c["hl0"], hfill=c["hfill"], bfill=c["bfill"],
+                A=" ".join("%02x" % b for b in c["A"]), B=" ".join("%02x" % b for b in c["B"]),
+                cell_alloc_of_SI1=ca if len(ca) <= 80 else ca[:80] + ["...(%d)" % len(ca)], line=line_of_hist(c))
+
+
+def _si4_message(rng, nca, shape):
+    """one SI4 message: 13 arbitrary fixed octets + payload of the given shape"""
+    hdr = [rng.below(256) for _ in range(13)]
+    cd = []
+    if rng.chance(1, 2):
+        cd = [IE_CD, rng.below(256), (rng.below(8) << 5) | (rng.below(2) << 4) | rng.below(16), rng.below(256)]
+    room = 23 - 13 - len(cd) - 2
+    if shape == "air":                      # what the BCCH carries: 23 octets, IE inside, padded with rest octets
+        l = rng.range(0, room)
+        pay = cd + [IE_MA, l] + _rand_bitmap(rng, l, nca)
+        pay += [0x2B] * (10 - len(pay))
+    elif shape == "short":                  # IE complete, message ends before octet 23
+        l = rng.range(0, room)
+        pay = cd + [IE_MA, l] + _rand_bitmap(rng, l, nca) + [0x2B] * rng.range(0, 1)
+    elif shape == "long":                   # longer than the buffer
+        l = rng.range(max(0, room - 1), 10)
+        pay = cd + [IE_MA, l] + _rand_bitmap(rng, l, nca) + [rng.below(256) for _ in range(rng.range(0, 4))]
+    elif shape == "long-edge":              # longer than the buffer, the IE starts in its last octets: the stored copy ends with the tag / the length octet
+        l = rng.range(1, 4)
+        pay = [0x2B] * rng.choice([7, 8, 8, 9, 9]) + [IE_MA, l] + _rand_bitmap(rng, l, nca)
+    elif shape == "cut":
+        l = rng.range(1, 8)
+        full = cd + [IE_MA, l] + _rand_bitmap(rng, l, nca)
+        pay = full[:rng.range(1, len(full) - 1)]
+    elif shape == "none":                   # no Mobile Allocation IE
+        pay = cd + ([0x2B] * rng.range(0, 6) if rng.chance(2, 3) else [])
+    else:                                   # noise
+        pay = [rng.choice([IE_CD, IE_MA, rng.below(10), rng.below(256), 0x2B]) for _ in range(rng.range(0, 14))]
+    return hdr + pay
+
+
+def gen_hist_cases(rng, n):
+    cases = []
+    shapes = ["air", "air", "air", "short", "short", "long", "long-edge", "cut", "none", "noise"]
+    for k in range(n):
+        t, bg, nca = _rand_table(rng)
+        A = _si4_message(rng, nca, shapes[k % len(shapes)])
+        two = rng.chance(1, 3)
+        B = _si4_message(rng, nca, rng.choice(shapes)) if two else []
+        pos = rng.choice([0, 1, 2] if two else [0, 1])
+        cases.append(mk_hist(pos, rng.choice([0, 3, 64, 200]), rng.choice([0, 7, 1000, 65500]), bg,
+                             rng.choice([0, 0, 0x2B, IE_MA, IE_CD, rng.below(256)]), A, B, t, "hist " + shapes[k % len(shapes)] + ("+B" if two else "")))
+    bad = [mk_hist(1, 0, 0, 0, 0, [0] * 12, [], {}, "malformed"), mk_hist(2, 0, 0, 0, 0, [0] * 13, [], {}, "malformed"),
+           mk_hist(1, 0, 0, 0, 256, [0] * 13, [], {}, "malformed"), mk_hist(1, 0, 0, 0, 0, [0] * 13 + [256], [], {}, "malformed"),
+           mk_hist(1, 0, 0, 0, 0, [0] * 13, [0] * 5, {}, "malformed"), mk_hist(3, 0, 0, 0, 0, [0] * 13, [], {}, "malformed")]
+    return cases + bad
+
+
+def _parse_payload(pay):
+    """(kind, l, value octets, octets up to the end of the IE)"""
+    off = 0
+    if pay and pay[0] == IE_CD:
+        if len(pay) < 4:
+            return "cut", None, None, None
+        off = 4
+    rem = pay[off:]
+    if rem and rem[0] == IE_MA:
+        if len(rem) < 2 or len(rem) < 2 + rem[1]:
+            return "cut", None, None, None
+        return "ie", rem[1], rem[2:2 + rem[1]], off + 2 + rem[1]
+    return "none", None, None, off
+
+
+def hist_spec(c):
+    """the statement on a history: (class, expectation or None).  After SI1 and an SI4 whose CBCH Mobile Allocation IE is complete (and
+    inside the 23 octets of a BCCH block) the list / hopp_len / flags are the specified ones - whatever the order of arrival."""
+    def listed(l, v):
+        e = spec(dict(c, si4=1, len=l, ma=v, kind="hist"))
+        return (e[1], e[0][2 + 64:])          # (list, flag changes relative to the table of SI1)
+    kA = _parse_payload(c["A"][13:])
+    rcA = -5 if kA[0] == "cut" else 0
+    if not c["B"]:
+        if kA[0] == "cut":
+            return "cut", dict(rc=[-5], si4=0, state="untouched")
+        if kA[0] == "none":
+            return "no-ie", dict(rc=[0], si4=1, state="untouched")
+        _, l, v, end = kA
+        if 13 + end > 23:
+            # as it is (c20_hist_order_long_refuted): the stored copy is cut inside the IE
+            return "long-ie-cut", dict(rc=[0], si4=1, state=("untouched" if c["pos"] == 1 or l > 8 else listed(l, v)))
+        if l > 8:
+            return "ie-9+", dict(rc=[0], si4=1, state="untouched")
+        return "ie", dict(rc=[0], si4=1, state=listed(l, v))
+    kB = _parse_payload(c["B"][13:])
+    if kB[0] == "ie" and kB[1] <= 8 and 13 + kB[3] <= 23:
+        return "two-B-ie", dict(rc=[rcA, 0], si4=1, state=listed(kB[1], kB[2]))
+    return "two-other", None
+
+
 def run_callers(ctx, replay_case):
     import hashlib
     binp = _SI4["bin"]
@@ -645,6 +776,55 @@ def run_callers(ctx, replay_case):
             ctx.nontrivial(("render",) + cls)
     elif replay_case is None:
         ctx.count("render:not-executed")
+    # ---- histories of SI4 and SI1
+    if replay_case is not None:
+        hc = [hist_of_line(replay_case["line"], replay_case.get("kind", "replay"))] if replay_case.get("path") == "hist" else []
+    else:
+        hc = gen_hist_cases(rng, 1500 if quick else 16000)
+    hl = [line_of_hist(c) for c in hc]
+    himpl, hreport = run_impl(binp, hl, args=("hist",))
+    hidx = list(range(len(hc)))
+    ctx.correspond("si4-si1-history", "MobAlloc", hidx, lambda k: "w_c20_hist " + hl[k], lambda k: himpl[k], show=lambda k: show_hist(hc[k]))
+    asis = 0
+    for k, c in enumerate(hc):
+        o = himpl[k]
+        if c["kind"] == "malformed":
+            if o != [-999]:
+                fail("history harness accepted a malformed line", show_hist(c), key="c20-harness-malformed", expected=[-999], observed=o)
+            continue
+        cls, e = hist_spec(c)
+        ctx.count("hist:" + cls)
+        if o and o[0] in CODES:
+            fail("gsm48_decode_sysinfo4 / gsm48_decode_sysinfo1 (re-decode of the stored SI4): " + CODES[o[0]],
+                 dict(show_hist(c), sanitizer=hreport.get(k, "")), key="c20-hist-memory", observed=o)
+            continue
+        if cls == "long-ie-cut":
+            asis += 1
+        if e is not None:
+            nr = 2 if c["B"] else 1
+            rcs, si1, si4, hlen = o[:nr], o[nr], o[nr + 1], o[nr + 8]
+            hop, diffs = o[nr + 9:nr + 9 + 64], o[nr + 9 + 64 + 23:]
+            hop0 = [(c["hfill"] + j) % 65536 for j in range(64)]
+            if e["state"] == "untouched":
+                want = (e["rc"], 1, e["si4"], c["hl0"], hop0, [])
+                got = (rcs, si1, si4, hlen, hop, diffs)
+            else:
+                sel, fl = e["state"]
+                want = (e["rc"], 1, e["si4"], len(sel), sel, fl)
+                got = (rcs, si1, si4, hlen, hop[:len(sel)], diffs)
+            if got != want:
+                if cls == "long-ie-cut":
+                    key, what = "c20-hist-long-message", "SI4 longer than si4_msg: behaviour differs from c20_hist_order_long_refuted"
+                else:
+                    key, what = "c20-si4-si1-order", ("after SI1 and SYSTEM INFORMATION 4 (%s) the hopping list / hopp_len / HOPP flags are not the ones "
+                                                      "specified by the CBCH Mobile Allocation and the cell allocation" % c["order"])
+                fail(what, show_hist(c), key=key, expected=[list(x) if isinstance(x, (list, tuple)) else x for x in want][:5],
+                     observed=[list(x) if isinstance(x, (list, tuple)) else x for x in got][:5])
+        ctx.nontrivial(("hist", cls, c["pos"], bool(c["B"]), len(c["A"]) <= 23, e["si4"] if e else None))
+    if asis:
+        ctx.note("%d generated histories carry an SI4 whose CBCH Mobile Allocation IE ends behind octet 23: order dependent exactly as stated by "
+                 "c20_hist_order_long_refuted (BCCH blocks have 23 octets; not counted as a violation)" % asis)
+    ctx.extra["hist_sanitizer_reports_first"] = [hreport[k] for k in sorted(hreport)[:3]]
     for r in range(8):
         for key in sorted(fails):
             if r < len(fails[key]):
@@ -770,5 +950,8 @@ def run(ctx):
                          "(bitmap kinds as above) + 0..3 rest octets, cut at EVERY position 0..end, SI1 received / not, previous list of 0/3/64/200 entries and "
                          "stale HOPP flags, plus a hostile stream of random short payloads built from the two tags, length octets and noise; the message is an "
                          "exact-size heap block (ASan redzone behind its last octet); gsm48_rr_render_ma: mob_alloc_lv with length octet 1..8 (and 9..255 with "
-                         "a previous ma_len <= 64) x the bitmap kinds; caller classes = (path, channel description, length octet, complete / cut in IE / "
+                         "a previous ma_len <= 64) x the bitmap kinds; histories [SI1, A], [A, SI1], [SI1, A, B], [A, SI1, B], [A, B, SI1] of SI4 messages "
+                         "(23-octet BCCH shape / shorter / longer than si4_msg, also with the IE starting in the last octets of the stored copy / cut / without IE / noise, arbitrary fixed part) and one SI1 (cell allocation "
+                         "installed by the stubbed decode_freq_list) on one struct with si4_msg pre-filled (0, 0x2b, 0x72, 0x64, random) and its "
+                         "successor member poisoned; caller classes = (path, channel description, length octet, complete / cut in IE / "
                          "cut after tag / cut in channel description / no IE, SI1, list empty / full)")
